@@ -3,7 +3,7 @@ use crate::replay::Model;
 use crate::scen::{KeyedData, err_name, global};
 use dust_dds::dds_async::{
     data_reader::DataReaderAsync, data_writer::DataWriterAsync, domain_participant::DomainParticipantAsync,
-    publisher::PublisherAsync, subscriber::SubscriberAsync, topic::TopicAsync,
+    publisher::PublisherAsync, subscriber::SubscriberAsync, topic::TopicAsync, content_filtered_topic::ContentFilteredTopicAsync,
 };
 use dust_dds::infrastructure::{error::DdsError, listener::NO_LISTENER, qos::QosKind, status::NO_STATUS};
 use serde_json::{Value, json};
@@ -15,7 +15,8 @@ pub struct EntModel {
     topics: Vec<TopicAsync>,
     writers: Vec<DataWriterAsync<KeyedData>>,
     readers: Vec<DataReaderAsync<KeyedData>>,
-    live: [Vec<bool>; 5],
+    cfts: Vec<ContentFilteredTopicAsync>,
+    live: [Vec<bool>; 6],
     deleted_participant: bool,
 }
 
@@ -48,7 +49,7 @@ impl EntModel {
             }
             p
         });
-        EntModel { p: Some(p), pubs: vec![], subs: vec![], topics: vec![], writers: vec![], readers: vec![],
+        EntModel { p: Some(p), pubs: vec![], subs: vec![], topics: vec![], writers: vec![], readers: vec![], cfts: vec![],
                    live: Default::default(), deleted_participant: false }
     }
 
@@ -145,6 +146,19 @@ impl Model for EntModel {
                 if r.is_ok() { self.live[4][id("id") - 1] = false; }
                 rn(&r)
             }
+            "CreateCft" => {
+                let t = self.topics[id("topic") - 1].clone();
+                let name = format!("cft{}", self.cfts.len() + 1);
+                let r = run(p.create_contentfilteredtopic(&name, &t, "id = %0".to_string(), vec!["1".to_string()]));
+                let s = rn(&r);
+                if let Ok(x) = r { self.cfts.push(x); self.live[5].push(true); }
+                s
+            }
+            "DeleteCft" => {
+                let r = run(p.delete_contentfilteredtopic(&self.cfts[id("id") - 1]));
+                if r.is_ok() { self.live[5][id("id") - 1] = false; }
+                rn(&r)
+            }
             "Use" => {
                 let k = id("id") - 1;
                 match a["kind"].as_str().unwrap() {
@@ -171,7 +185,7 @@ impl Model for EntModel {
     }
 
     fn project(&self) -> Value {
-        json!({"pubs": self.live[0], "subs": self.live[1], "topics": self.live[2], "writers": self.live[3], "readers": self.live[4]})
+        json!({"pubs": self.live[0], "subs": self.live[1], "topics": self.live[2], "writers": self.live[3], "readers": self.live[4], "cfts": self.live[5]})
     }
 
     fn compare_result(&self, op: &Value, got: &Value) -> Option<String> {
